@@ -469,17 +469,18 @@ func NewHost(priv ic.PrivKey, listen bool) host.Host {
 
 // ClusterOpts configures the fixture.
 type ClusterOpts struct {
-	Key         ic.PrivKey // default gen.PeerKeys[0]
-	Shared      *SharedState
-	RealMonitor bool   // real pubsubmon.Monitor instead of the fake
-	Allocator   string // "ascend" (default) or "descend"
-	Listen      bool
-	InformerTTL time.Duration
-	Mutate      func(cfg *ipfscluster.Config)
-	BeforeStart func(m *Monitor)      // configure the fake monitor before the cluster starts publishing
-	Host        host.Host             // use this host instead of creating one
-	Consensus   ipfscluster.Consensus // use this consensus component instead of the fake
-	DHT         bool                  // give the cluster a real dual DHT (needed by Join)
+	Key            ic.PrivKey // default gen.PeerKeys[0]
+	Shared         *SharedState
+	RealMonitor    bool   // real pubsubmon.Monitor instead of the fake
+	Allocator      string // "ascend" (default) or "descend"
+	Listen         bool
+	InformerTTL    time.Duration
+	Mutate         func(cfg *ipfscluster.Config)
+	BeforeStart    func(m *Monitor)      // configure the fake monitor before the cluster starts publishing
+	Host           host.Host             // use this host instead of creating one
+	Consensus      ipfscluster.Consensus // use this consensus component instead of the fake
+	DHT            bool                  // give the cluster a real dual DHT (needed by Join)
+	ExtraInformers []string              // names of additional informers (same TTL) given to the cluster
 }
 
 // ClusterFixture is a real Cluster with harness components.
@@ -591,8 +592,12 @@ func NewClusterNoWait(o ClusterOpts) *ClusterFixture {
 			panic(err)
 		}
 	}
+	informers := []ipfscluster.Informer{f.Inf}
+	for _, n := range o.ExtraInformers {
+		informers = append(informers, NewInformer(n, o.InformerTTL))
+	}
 	c, err := ipfscluster.NewCluster(ctx, h, idht, cfg, dssync.MutexWrap(ds.NewMapDatastore()), cons,
-		[]ipfscluster.API{f.API}, f.IPFS, f.Tracker, mon, alloc, []ipfscluster.Informer{f.Inf}, tracer)
+		[]ipfscluster.API{f.API}, f.IPFS, f.Tracker, mon, alloc, informers, tracer)
 	if err != nil {
 		panic(err)
 	}
